@@ -99,6 +99,8 @@ class FakeComp(workflow.ComponentState):
         self.runs = 0
         self._fin = reactivex.subject.Subject()
         self._pm = reactivex.subject.Subject()
+        self._pm_self = reactivex.subject.Subject()
+        self._in_finish = False
         self._engine = FakeEngine(self)
         cs = types.SimpleNamespace(isAggregating=d['is_aggregate'], isAggregatingLoopedNodes=False, isLooping=False,
                                    isReplicating=d['is_replica'],
@@ -107,7 +109,7 @@ class FakeComp(workflow.ComponentState):
         self._spec = types.SimpleNamespace(
             reference=self.ref, workflowAttributes=cs.workflowAttributes, componentSpecification=cs,
             isRepeat=d['is_repeat'], isMigrated=False, isMigratable=False, stageIndex=d['stage'], isStaged=False,
-            identification=types.SimpleNamespace(identifier=self.ref))
+            identification=self.ref)
         self.repeatingDisposable = None
 
     # --- overridden protocol (trusted mirror of workflow.ComponentState)
@@ -118,7 +120,7 @@ class FakeComp(workflow.ComponentState):
     isStaged = property(lambda s: s._spec.isStaged)
     finishCalled = property(lambda s: s._finishedCalled)
     notifyFinished = property(lambda s: s._fin)
-    notifyPostMortem = property(lambda s: s._pm)
+    notifyPostMortem = property(lambda s: s._pm_self if s._in_finish else s._pm)
     producers = property(lambda s: [s.drv.comps[p] for p in s.d['preds']])
 
     def __hash__(self):
@@ -151,13 +153,14 @@ class FakeComp(workflow.ComponentState):
         return RC['RestartInitiated']
 
     def finish(self, finalState):
-        self._finishedCalled = True
-        if self.state == codes.RUNNING_STATE:
-            self.pending = finalState
-            self._engine.kill()
-        else:
-            self.controllerState = finalState
-            self._engine.shutdown()
+        # the REAL ComponentState.finish protocol; only its subscription to the component's own post-mortem
+        # notification is routed to a private subject, so that the harness can let the component take its
+        # pending final state when the engine exits without delivering the controller's notification yet
+        self._in_finish = True
+        try:
+            return workflow.ComponentState.finish(self, finalState)
+        finally:
+            self._in_finish = False
 
 
 class ManualEvent(object):
@@ -302,10 +305,10 @@ class Driver(object):
             r = oc[min(comp.runs - 1, len(oc) - 1)]
         e.phase = 'exited'
         e.reason = r
-        if comp.finishCalled:
-            comp.controllerState = comp.pending
-            e.shutdown()
-        else:
+        was_called = comp.finishCalled
+        # the component observes its own transition to post-mortem (the closure finish() subscribed, if any)
+        comp._pm_self.on_next(({'state': codes.POSTMORTEM_STATE}, comp))
+        if not was_called:
             self.pmq.append(c)
         self._scan()
         return r
